@@ -1,4 +1,5 @@
 import MpVerif.C12.Lemmas
+import MpVerif.Gen.ObjFilter
 /-!
 # C12 — the solver receives exactly the objective(s) the user selected
 
@@ -430,6 +431,139 @@ theorem C12_names (ops : List OptOp) (n numCons : Nat) (segs : List Seg) (st : S
         simp only [List.length_singleton, Nat.succ_ne_zero, if_false]
         rw [hecho]; congr 1; omega
       · simp [hr]
+
+/-! ## Tie to the source text
+
+`MpVerif.Gen.ObjFilter` is regenerated on every run by `translators/gen_objfilter.py` from clang's typed AST
+of the *instantiated* member functions in `include/mp/nl-reader.h`, `solver-base.h`, `solver-io.h`.  The
+theorems below state that the generated definitions (C++ `int`/`bool` semantics of `MpVerif.Basic.CSem`,
+including undefined behaviour) coincide with the hand model the selection theorems are about, for every
+input in `int` range.  A change of the C++ text changes the generated definition, and the corresponding
+theorem no longer checks. -/
+section GenTie
+open MpVerif.CSem MpVerif.Gen
+
+/-- C++ `bool` as an integer -/
+def bi (b : Bool) : Int := if b then 1 else 0
+
+/-- `objno_` values a `BasicSolver` can hold: the default `-1` or what `SetObjNo` accepted, within `int` -/
+def rawInRange (raw : Int) : Prop := -2147483648 < raw ∧ raw ≤ 2147483647
+
+theorem arith_tI {r : Int} (h1 : -2147483648 ≤ r) (h2 : r ≤ 2147483647) : arith tI r = .ret r := by
+  have hlo : tI.lo = -2147483648 := by decide
+  have hhi : tI.hi = 2147483647 := by decide
+  have hs : tI.signed = true := rfl
+  simp [arith, hs, hlo, hhi, h1, h2]
+
+theorem C12_gen_NeedObj (multi : Bool) (k idx : Nat) (hk : (k : Int) ≤ 2147483647) :
+    ObjFilter.NeedObj idx (bi multi) k = .ret (bi (needObj multi k idx)) := by
+  cases multi with
+  | true => simp [ObjFilter.NeedObj, cor, bi, needObj]
+  | false =>
+    have h1 : arith tI ((k : Int) - 1) = .ret ((k : Int) - 1) := arith_tI (by omega) (by omega)
+    by_cases h : (k : Int) - 1 = (idx : Int)
+    · have h1' := h1; rw [h] at h1'
+      simp [ObjFilter.NeedObj, cor, bi, needObj, csub, h1', h, ceq, tobool]
+    · simp [ObjFilter.NeedObj, cor, bi, needObj, csub, h1, h, ceq, tobool]
+
+theorem C12_gen_resulting_nobj (multi : Bool) (k n : Nat) :
+    ObjFilter.resulting_nobj n (bi multi) k = .ret ((resultingNObj multi k n : Nat) : Int) := by
+  have c0 : conv tI 0 = 0 := by decide
+  have c1 : conv tI 1 = 1 := by decide
+  cases multi with
+  | true => simp [ObjFilter.resulting_nobj, bi, resultingNObj]
+  | false =>
+    by_cases hk : k > 0 <;> by_cases hn : n > 0 <;>
+      simp [ObjFilter.resulting_nobj, bi, resultingNObj, ObjFilter.cmin, cgt, hk, hn, c0, c1] <;> omega
+
+theorem C12_gen_resulting_obj_index (multi : Bool) (idx : Nat) :
+    ObjFilter.resulting_obj_index idx (bi multi) = .ret ((resultingObjIndex multi idx : Nat) : Int) := by
+  cases multi <;> simp [ObjFilter.resulting_obj_index, bi, resultingObjIndex]
+
+theorem C12_gen_objno_specified (s : Solver) (h : rawInRange s.objnoRaw) :
+    ObjFilter.objno_specified s.objnoRaw = .ret (objnoSpecified s : Int) := by
+  obtain ⟨h1, h2⟩ := h
+  simp only [ObjFilter.objno_specified, ObjFilter.cabs, objnoSpecified]
+  by_cases hneg : s.objnoRaw < 0
+  · have hr : arith tI (-s.objnoRaw) = .ret (-s.objnoRaw) := arith_tI (by omega) (by omega)
+    simp [hneg, cneg, hr]; omega
+  · simp [hneg]; omega
+
+theorem C12_gen_is_objno_specified (s : Solver) :
+    ObjFilter.is_objno_specified s.objnoRaw = .ret (bi (isObjnoSpecified s)) := by
+  by_cases h : 0 ≤ s.objnoRaw <;> simp [ObjFilter.is_objno_specified, cge, bi, isObjnoSpecified, h]
+
+theorem C12_gen_multiobj (s : Solver) :
+    ObjFilter.multiobj (bi s.multiFlag) s.objnoRaw = .ret (bi (multiobj s)) := by
+  cases hm : s.multiFlag <;> by_cases h : s.objnoRaw < 0 <;>
+    simp [ObjFilter.multiobj, cand, clt, bi, multiobj, hm, h, tobool, Outcome.bind]
+
+theorem C12_gen_objno_used (s : Solver) (h : rawInRange s.objnoRaw) :
+    ObjFilter.objno_used (bi s.optsRead) (bi s.objAdded) s.objnoRaw = .ret (objnoUsed s : Int) := by
+  have hs := C12_gen_objno_specified s h
+  cases ho : s.optsRead <;> cases ha : s.objAdded <;>
+    simp [ObjFilter.objno_used, bi, objnoUsed, ho, ha, hs]
+
+/-- the overrides in `SolverNLHandlerImpl` (what the virtual calls `objno()` / `multiobj()` of
+    `NLProblemBuilder` evaluate to in a driver) are the solver accessors -/
+theorem C12_gen_handler_overrides (fm raw : Int) :
+    ObjFilter.handler_objno raw = ObjFilter.objno_specified raw ∧
+    ObjFilter.handler_multiobj fm raw = ObjFilter.multiobj fm raw := ⟨rfl, rfl⟩
+
+theorem C12_gen_SetObjNo (s : Solver) (v : Int) :
+    ObjFilter.SetObjNo v = (match setOpt s (.objno v) with
+      | .error _ => .throw
+      | .ok s' => .ret s'.objnoRaw) := by
+  by_cases h : v < 0 <;> simp [ObjFilter.SetObjNo, clt, setOpt, h]
+
+/-- the three notifications store `true`, `false`, `true` (as `onSeg` / `onHeader` of the model do) -/
+theorem C12_gen_notify :
+    ObjFilter.notify_obj_added = .ret (bi true) ∧ ObjFilter.notify_start_opts = .ret (bi false) ∧
+    ObjFilter.notify_end_opts = .ret (bi true) := ⟨rfl, rfl, rfl⟩
+
+/-- the objno range check of `SolverNLHandlerImpl::OnHeader` is the condition of the model's `onHeader` -/
+theorem C12_gen_OnHeader_check (s : Solver) (n : Nat) (h : rawInRange s.objnoRaw) :
+    ObjFilter.OnHeader_check s.objnoRaw n =
+      if (decide (objnoSpecified s > n) && isObjnoSpecified s) = true then .throw else .ret 0 := by
+  simp only [ObjFilter.OnHeader_check, C12_gen_objno_specified s h, C12_gen_is_objno_specified s,
+    Outcome.bind_ret]
+  by_cases h1 : objnoSpecified s > n <;> by_cases h2 : 0 ≤ s.objnoRaw
+  all_goals simp [cand, cgt, bi, isObjnoSpecified, h1, h2, tobool, Outcome.bind]
+  all_goals omega
+
+/-- order of the steps of `SolverNLHandlerImpl::OnHeader`: options are parsed (`after_header_`), then
+    `notify_end_opts`, then the range check, then the base class creates the objectives -/
+theorem C12_gen_skel_OnHeader : ObjFilter.skel_SolverNLHandler_OnHeader = [
+    "store num_options_ := h.num_ampl_options",
+    "call copy(h.ampl_options, (h.ampl_options + num_options_), options_)",
+    "if after_header_.operator bool() { call solver_.notify_start_opts() ; call operator()(after_header_) }",
+    "call solver_.notify_end_opts()",
+    "decl objno := solver_.objno_specified()",
+    "throw-if ((objno > h.num_objs) && solver_.is_objno_specified()) : InvalidOptionValue(StringRef(\"objno\"), objno, StringRef(format(CStringRef(\"expected value between 0 and {}\"), h.num_objs)))",
+    "call OnHeader(h)"] := rfl
+
+/-- `NLProblemBuilder::OnHeader`: `resulting_nobj(h.num_objs)` objectives are created and, if any,
+    `notify_obj_added()` is called -/
+theorem C12_gen_skel_builder_OnHeader : ObjFilter.skel_NLProblemBuilder_OnHeader = [
+    "call builder_.SetInfo(h)",
+    "call AddVariables(h)",
+    "if decl n := h.num_common_exprs() ; n { call builder_.AddCommonExprs(n) }",
+    "decl n_objs := resulting_nobj(h.num_objs)",
+    "if (n_objs != 0) { call builder_.AddObjs(n_objs) ; call notify_obj_added() }",
+    "if (h.num_algebraic_cons != 0) { call builder_.AddAlgebraicCons(h.num_algebraic_cons) }",
+    "if (h.num_logical_cons != 0) { call builder_.AddLogicalCons(h.num_logical_cons) }",
+    "if (h.num_funcs != 0) { call builder_.AddFunctions(h.num_funcs) }"] := rfl
+
+/-- `OnObj` sets sense and expression of slot `index` and notifies; `OnLinearObjExpr` hands out the
+    linear builder of slot `obj_index`; the handler's notification reaches the solver -/
+theorem C12_gen_skel_obj_events :
+    ObjFilter.skel_NLProblemBuilder_OnObj =
+      ["call SetObj(builder_.obj(index), type, NLProblemBuilder(expr))", "call notify_obj_added()"] ∧
+    ObjFilter.skel_NLProblemBuilder_OnLinearObjExpr =
+      ["return builder_.obj(obj_index).set_linear_expr(num_linear_terms)"] ∧
+    ObjFilter.skel_SolverNLHandler_notify_obj_added = ["call solver_.notify_obj_added()"] := ⟨rfl, rfl, rfl⟩
+
+end GenTie
 
 /-! ### non-vacuity: concrete runs of the model -/
 
